@@ -70,7 +70,7 @@ MAXLEN = 1400
 # every length at which some classifier branch changes its mind, +-1, and 64
 THRESH = (0, 1, 2, 3, 4, 7, 8, 9, 11, 12, 13, 19, 20, 21, 22, 23, 24, 64)
 ALL_LENGTHS = tuple(range(65)) + (65, 127, 128, MAXLEN)
-PLANE_LENGTHS = (1, 2, 8, 12, 19, 20, 22, 23, 64)
+PLANE_LENGTHS = (2, 8, 12, 20, 23, 64)
 
 B0_QUICK = (0x00, 0x01, 0x02, 0x10, 0x11, 0x12, 0x21, 0x31, 0x41, 0x42, 0x51, 0x63, 0x64, 0x65, 0x81, 0xFF)
 B0_FULL = (0x00, 0x01, 0x02, 0x03, 0x04, 0x10, 0x11, 0x12, 0x21, 0x31, 0x40, 0x41, 0x42, 0x51, 0x61, 0x63, 0x64, 0x65,
@@ -302,7 +302,12 @@ def inner_items(thorough: bool) -> list[tuple]:
 def run_inner_items(chunk: list) -> list:
     out = []
     for part, fi, tname, b0 in chunk:
-        inner = Inner(fi, _SEED)
+        try:
+            inner = Inner(fi, _SEED)
+        except HarnessError as e:
+            out.append((part, 0, 0, 0, 0, 0, set(), {"harness:inner-setup": (
+                f"flags {flag_str(FLAGSETS[fi])}: {e}", {"layer": "setup", "flags": fi, "data": ""})}))
+            continue
         try:
             tmpl = templates(inner.prefix, FILLERS[_SEED % len(FILLERS)])[tname]
             if part == "grid":
@@ -310,7 +315,7 @@ def run_inner_items(chunk: list) -> list:
                           for b in (W8_FULL if _THOROUGH else W8_QUICK) for c in LAST]
                 gen = payloads(tmpl, ALL_LENGTHS if _THOROUGH else THRESH, b0,
                                (B1_FULL if _THOROUGH else B1_QUICK) if b0 is not None else (None,), combos)
-                dirs = DIRS
+                dirs = DIRS         # both address families at the threshold lengths, IPv4 only at the lengths in between
             elif part == "plane":
                 gen = payloads(tmpl, PLANE_LENGTHS, b0, range(256), PLANE_COMBOS)
                 dirs = ("out4", "in4")
@@ -320,7 +325,8 @@ def run_inner_items(chunk: list) -> list:
             seen: set = set()
             viols: dict = {}
             outcomes: set = set()
-            n = n_emitted = n_raised = 0
+            n = evals = n_emitted = n_raised = 0
+            thresh, dirs4 = frozenset(THRESH), tuple(d for d in dirs if d.endswith("4"))
             observe, prefix, flags, allowed, ref_verdicts = inner.observe, inner.prefix, inner.flags, ref.allowed, ref.verdicts
             for data in gen:
                 if data in seen:
@@ -333,7 +339,9 @@ def run_inner_items(chunk: list) -> list:
                 own = data[:22] == prefix
                 want = allowed(v[3], v[4], own, flags)
                 em = 0
-                for d in dirs:
+                dd = dirs if len(data) in thresh else dirs4
+                evals += len(dd)
+                for d in dd:
                     emitted, problem = observe(data, d)
                     if emitted:
                         em += 1
@@ -343,7 +351,6 @@ def run_inner_items(chunk: list) -> list:
                         judge(inner, data, v, d, emitted, problem, viols)
                 n_emitted += em
                 outcomes.add((fi, v[3], v[4], own, em))
-            evals = n * len(dirs)
             out.append((part, n, evals, n_emitted, evals - n_emitted, n_raised, outcomes, viols))
         finally:
             inner.close()
@@ -494,7 +501,8 @@ def run_outer(case: tuple, seed: int) -> tuple[list, tuple]:
         def emissions() -> list:
             return [(t.local_addr[0], d, tuple(a)) for t in w.loop.transports for d, a in t.sent]
 
-        deliveries = 0
+        deliveries = 0          # packets that certainly reached an open (or opening) exit socket
+        maybe = 0               # packets the exit may or may not accept (same IP as the previous hop, other port)
         # --- phase A: the cell that carries the data reaches the exit from somewhere else than the previous hop ----
         if sname != "previous-hop":
             w.send_out("O", c, dest, data)
@@ -524,7 +532,7 @@ def run_outer(case: tuple, seed: int) -> tuple[list, tuple]:
                                  f"{len(w.loop.transports)} outside sockets (enabled={es.enabled}); "
                                  f"emitted {[(d.hex()[:24], a) for _, d, a in emissions()]}"))
             else:
-                deliveries += 1
+                maybe += 1
         opened_by_a = len(w.loop.transports)
 
         # --- phase B: the genuine packet from the previous hop -------------------------------------------------------
@@ -546,15 +554,15 @@ def run_outer(case: tuple, seed: int) -> tuple[list, tuple]:
                 viol.append((f"e2e:out:wrong-destination:{dkind}",
                              f"{desc}: nothing can be emitted for this destination, saw {[a for _, _, a in em_ok]}"))
         else:
-            good = [e for e in em_ok if e[1] == data and e[2] in finals
-                    and e[0] == ("::" if ":" in e[2][0] else "0.0.0.0")]
+            good = [e for e in em_ok if e[1] == data and e[2] in finals]
             if len(em_ok) != len(good):
                 viol.append((f"e2e:out:wrong-destination:{dkind}",
-                             f"{desc}: expected the payload towards one of {finals} on the socket of that family, saw "
+                             f"{desc}: expected the unmodified payload towards one of {finals}, saw "
                              f"{[(f, d.hex()[:24], a) for f, d, a in em_ok]}"))
-            elif len(good) != deliveries:
-                viol.append((f"e2e:out:dropped-allowed:{cls}:{dkind}",
-                             f"{desc}: {deliveries} allowed packet(s) delivered to the exit, {len(good)} emitted"))
+            elif not deliveries <= len(good) <= deliveries + maybe:
+                viol.append((f"e2e:out:dropped-allowed:{cls}:{dkind}" if len(good) < deliveries else "e2e:out:duplicated",
+                             f"{desc}: {deliveries} allowed packet(s) delivered to the exit by the previous hop (+{maybe} "
+                             f"from its IP, other port), {len(good)} emitted"))
 
         # --- phase C: the same payload arrives from the outside on every open socket ---------------------------------
         n_in = 0
@@ -664,7 +672,10 @@ def run(ctx: core.Ctx) -> core.Report:
         outer_viols["harness:circuit-not-built"] = (f"{not_built} end-to-end cases could not build their circuit", None)
 
     violations = [core.Violation(k, w, rp) for k, (w, rp) in sorted(viols.items())]
-    violations += [core.Violation(k, w, rp) for k, (w, rp) in sorted(outer_viols.items())]
+    # the end-to-end layer repeats the gate check: keep its verdict only where the inner layer has not already reported
+    # the same direction / kind / shape class (one defect, one key)
+    violations += [core.Violation(k, w, rp) for k, (w, rp) in sorted(outer_viols.items())
+                   if not (k.startswith("e2e:") and ":".join(["gate", *k.split(":")[1:4]]) in viols)]
 
     emitted_classes = [o for o in outcomes if o[4]]
     cov = {
@@ -732,6 +743,11 @@ def replay(ctx: core.Ctx, data) -> list:  # noqa: ANN001
     if data["layer"] == "shape":
         raw = bytes.fromhex(data["data"])
         check_shapes(raw, classify(raw), viols)
+    elif data["layer"] == "setup":
+        try:
+            Inner(int(data["flags"]), seed).close()
+        except HarnessError as e:
+            return [core.Violation("harness:inner-setup", str(e))]
     elif data["layer"] == "inner":
         raw = bytes.fromhex(data["data"])
         inner = Inner(int(data["flags"]), seed)
